@@ -22,7 +22,7 @@ LEVEL = "exploration"
 RULE = (
     "case = (platform in {windows, fsevents}; recursive flag; one paced history on a scratch directory; a rendering of it into "
     "native batches: one batch per drain plus random extra cuts; FSEvents: flags of consecutive changes to the same (item, path) "
-    "OR-ed within a batch, optional sticky historic flags; Windows: optional parent-directory MODIFIED records, optional cut between "
+    "OR-ed within a batch, optionally the Created flag of an item repeated on its later events (sticky historic flags); Windows: optional parent-directory MODIFIED records, optional cut between "
     "RENAMED_OLD and RENAMED_NEW) | (decoder; record count 0-6; name lengths; padding).  Non-trivial iff the history is rendered into "
     ">=2 batches with >=1 rename or boundary move / the buffer holds >=2 records; distinct by (platform, config, history, cuts)."
 )
@@ -255,6 +255,7 @@ def run_history(b: Batch, platform, cfg, k32=None):
         split_pending = []
 
         last_seg = []
+        sticky_created = {}
 
         def flush():
             nonlocal n_batches, seg
@@ -292,6 +293,15 @@ def run_history(b: Batch, platform, cfg, k32=None):
                 if not evs:
                     return
                 evs = coalesce_fsevents(evs)
+                if cfg.get("sticky"):
+                    # FSEvents may keep OR-ing flags it has already reported for an item into later events of that item
+                    # (the reason the emitter keeps a set of inodes it has seen created)
+                    out2 = []
+                    for p_, i_, f_ in evs:
+                        out2.append((p_, i_, f_ | sticky_created.get(i_, 0)))
+                        if f_ & platshim.F_CREATED:
+                            sticky_created[i_] = platshim.F_CREATED
+                    evs = out2
                 # random extra cut
                 chunks = [evs]
                 flags["cut_inside_op"] = False
@@ -382,6 +392,9 @@ def run_history(b: Batch, platform, cfg, k32=None):
                     return x is not None and x != "" and (recursive or "/" not in x)
 
                 prim = [e for e in new if not e.is_synthetic and e.event_type in ("moved", "created", "deleted")]
+                if cfg.get("sticky"):
+                    # a repeated historic Created flag legitimately yields the same created event twice: count identical ones once
+                    prim = [e for i_, e in enumerate(prim) if e not in prim[:i_]]
                 syn = [e for e in new if e.is_synthetic]
                 desc = rec["desc"] if (kind == "d" and recursive) else []
                 same_dir = vis(s_rel) and vis(d_rel) and (platform != "windows" or os.path.dirname(s_rel) == os.path.dirname(d_rel))
@@ -530,6 +543,8 @@ def run_decoders(b: Batch, r, n):
 
 def make_cfg(r, seed, platform):
     cfg = {"seed": seed, "recursive": r.random() < 0.7, "n_ops": r.randint(5, 18), "n_root": r.randint(1, 5), "n_out": r.randint(2, 4), "cut_p": r.choice([0.0, 0.2, 0.5])}
+    if platform == "fsevents":
+        cfg["sticky"] = r.random() < 0.35
     if platform == "windows":
         cfg["parent_mod"] = r.random() < 0.5
         cfg["split_rename"] = r.random() < 0.2
